@@ -88,7 +88,7 @@ def parse(r):
     if m: r.violated = m.group(1)
     m = re.search(r"Temporal properties were violated|Action property (\S+) is violated|Deadlock reached", o)
     if m and not r.violated: r.violated = m.group(1) or m.group(0)
-    m = re.search(r"The postcondition has failed|Evaluating assumption .* failed|Assumption .* is false", o)
+    m = re.search(r"The postcondition has failed|Postcondition \S+ .* is false|Evaluating assumption .* failed|Assumption .* is false", o)
     if m and not r.violated: r.violated = "POSTCONDITION"
     if r.rc == 124:
         r.error = "timeout"
